@@ -29,6 +29,9 @@ type pkgS struct{ key, id, name int }
 type envS struct {
 	pkg, dist int
 	repos     []int
+	// emptyNotNil: RepositoryIDs is an empty slice that is not nil (what a JSON
+	// document with "repository_ids": [] decodes to); rendered `_`
+	emptyNotNil bool
 }
 
 type vulnS struct{ id, payload int }
@@ -130,7 +133,11 @@ func (s *scenario) lines(tag string) []string {
 		out = append(out, fmt.Sprintf("pkg %d %d %d", p.key, p.id, p.name))
 	}
 	for _, e := range s.envs {
-		out = append(out, fmt.Sprintf("env %d %d %s", e.pkg, e.dist, ints(e.repos)))
+		rs := ints(e.repos)
+		if len(e.repos) == 0 && e.emptyNotNil {
+			rs = "_"
+		}
+		out = append(out, fmt.Sprintf("env %d %d %s", e.pkg, e.dist, rs))
 	}
 	for _, r := range s.rows {
 		out = append(out, fmt.Sprintf("row %d %d %d %d %d %d %d", r.v.id, r.v.payload, r.name, r.dist, r.repo, b2i(r.fixed), b2i(r.inRange)))
@@ -197,6 +204,10 @@ func genScenario(r *hx.Rand, count func(string)) *scenario {
 			ev := envS{pkg: i, dist: distPool[r.Intn(len(distPool))]}
 			for k := r.Intn(3); k > 0; k-- {
 				ev.repos = append(ev.repos, repoPool[r.Intn(len(repoPool))])
+			}
+			if len(ev.repos) == 0 && r.Chance(1, 2) {
+				ev.emptyNotNil = true
+				count("environment:repository-list-empty-but-not-nil")
 			}
 			s.envs = append(s.envs, ev)
 		}
@@ -363,7 +374,7 @@ func sortedKeys[V any](m map[int]V) []int {
 // ---- reading scenarios back (corpus files are written in the line protocol) ----
 
 func parseInts(s string) ([]int, error) {
-	if s == "-" || s == "" {
+	if s == "-" || s == "_" || s == "" {
 		return nil, nil
 	}
 	var out []int
@@ -461,6 +472,7 @@ func parseScenario(lines []string) (*scenario, error) {
 			if e.repos, err = parseInts(f[3]); err != nil {
 				return bad(err)
 			}
+			e.emptyNotNil = f[3] == "_"
 			sc.envs = append(sc.envs, e)
 		case "row":
 			var r rowS
@@ -549,6 +561,7 @@ func parseScenario(lines []string) (*scenario, error) {
 			if kv["cfgs"] != "-" && kv["cfgs"] != "" {
 				sc.nw.cfgs = strings.Split(kv["cfgs"], ",")
 			}
+			sc.nw.twin = kv["twin"] == "1"
 		case "scan":
 			if len(f) < 3 {
 				return bad(fmt.Errorf("want api and ctx"))
